@@ -227,9 +227,52 @@ def structural_impls(ctx):
     ctx.ob(['C09', 'C14', 'C06', 'C11'], 'R-TABLE', 'structural|census', n >= 100, 'derived PartialEq/Eq/Hash/PartialOrd/Ord/Clone impls of grammar and semantic types: %d (floor 100), none hand-written' % n, nontrivial=False)
 
 
+TEXT_OP = re.compile(r'(?:<impl str>)::(trim\w*|replace\w*|to_lowercase|to_uppercase|to_ascii_\w+|strip_prefix|strip_suffix|split\w*|rsplit\w*|lines|repeat|get|get_mut|escape_\w+)$'
+                     r'|string::String::(truncate|retain|remove|pop|insert|insert_str|drain|replace_range|clear|split_off)$'
+                     r'|(String) as std::iter::FromIterator<char>>::from_iter$|(?:str|String) as std::ops::(Index)(?:Mut)?<|(from_utf8_lossy)$'
+                     r'|char::methods::<impl char>::(to_ascii_\w+|to_lowercase|to_uppercase)$')
+# layer -> method -> (how many sites, why they are harmless); reviewed on the pinned tree
+TEXT_OPS_ALLOWED = {
+    'backends': {'lines': (2, 'doc text split into one #[doc] per line; the offending line of an unparsable output for the error message'),
+                 'repeat': (1, 'the caret under the offending column of that error message'),
+                 'trim': (1, 'name of the generated associated constant of an enum variant'),
+                 'to_uppercase': (2, 'the same constant name')},
+    'grammar': {'split': (1, 'ItemPath::from(&str): `a::b` into segments')},
+    'parser': {'trim': (1, 'prologue / epilogue text of a backend block (reference grammar event `trim`)')},
+}
+TEXT_PROPS = {'backends': ['C14', 'C17', 'C13'], 'parser': ['C18', 'C14', 'C12'], 'grammar': ['C18', 'C11'], 'semantic': ['C11', 'C16', 'C17', 'C12'], 'lib': ['C14', 'C12']}
+
+
+def text_operations(ctx):
+    """names, documentation, prologue / epilogue text and the generated code travel from the input to the output as they are:
+    every call that cuts, replaces, re-cases or re-assembles text is one of the reviewed few (per layer and method, counted).
+    A new one ("tolerate a BOM", "tidy the output", "fold spellings") changes what is compared, reported or emitted."""
+    P = ctx.prog
+    seen = {}
+    n = 0
+    for f in P.fns.values():
+        if f.raw.get('derived'):
+            continue
+        layer = re.sub(r'^<', '', f.id).split('::')[0]
+        layer = layer if layer in ('backends', 'parser', 'grammar', 'semantic') else 'lib'
+        for c in f.calls():
+            n += 1
+            m = TEXT_OP.search(c['path'] or '')
+            if m:
+                meth = next(g for g in m.groups() if g)
+                seen.setdefault((layer, meth), []).append(loc(c['span']))
+    for (layer, meth), sites in sorted(seen.items()):
+        allowed = TEXT_OPS_ALLOWED.get(layer, {}).get(meth, (0, ''))
+        ctx.ob(TEXT_PROPS[layer], 'R-TABLE', 'text-ops|%s|%s' % (layer, meth), len(sites) <= allowed[0],
+               'text-transforming call `%s` in %s: %d site(s), reviewed %d (%s)' % (meth, layer, len(sites), allowed[0], allowed[1] or 'none reviewed: text must pass through unchanged'),
+               sites[-1])
+    ctx.ob(['C14', 'C18'], 'R-TABLE', 'text-ops|census', n >= 1500 and len(seen) >= 5, 'call sites examined for text transformations: %d, transforming (layer, method) pairs found: %d (floor 5)' % (n, len(seen)), nontrivial=False)
+
+
 def run(ctx):
     P = ctx.prog
     structural_impls(ctx)
+    text_operations(ctx)
 
     def one(suffix):
         c = [f for f in P.fns.values() if f.id == suffix or f.id.endswith('::' + suffix)]
